@@ -62,8 +62,10 @@ def akai_entry_namesake(what, case, detail):
 
 
 def akai_unencodable_tuning(what, case, detail):
-    """D16: root key + tuning offset below MIDI note 0 cannot be written to the smpl chunk."""
-    return what == "export finishes without exception" and isinstance(case, dict) and case.get("unencodable_tuning") is True
+    """D16: root key + tuning offset below MIDI note 0 cannot be written to the smpl chunk:
+    that one sample is reported as failed and not written (every other sample is)."""
+    return isinstance(case, dict) and case.get("only_unencodable_missing") is True and \
+        what == "exactly one WAV per sample / per L-R pair at <partition>/<volume>/<name>.wav, nothing else"
 
 
 def fir_history_from_new_block_only(what, case, detail):
